@@ -15,7 +15,7 @@
 
    Code modelled: _core.ExternalTensor.path/_check_path_containment/_load/numpy/__array__/tobytes/
    tofile/release/invalidate, base_dir setter, _io.load (base_dir = dirname(path) or "."),
-   external_data.set_base_dir (graph tensors only: tensors inside model.functions are NOT visited). *)
+   external_data.set_base_dir (model.graph and, since fix b3a8816, every model-local function). *)
 From Coq Require Import NArith List Bool Arith Lia.
 From IRV Require Import Base.Exn.
 Import ListNotations.
@@ -400,7 +400,8 @@ Section Tensor.
             let ev' := ev ++ [EvOpen (t_base t) (t_loc t); EvRead rp ino] in
             let off := or0 (t_off t) in
             let len := or_default (t_len t) (t_n t) in
-            if (N.of_nat (length data) <? off + len)%N then Some (t, ev', Raise OSError)
+            (* chunked copy: OSError only when a read returns nothing while bytes are still wanted *)
+            if (0 <? len)%N && (N.of_nat (length data) <? off + len)%N then Some (t, ev', Raise OSError)
             else Some (t, ev', Ok (slice data off len))
         end
     end.
@@ -449,9 +450,10 @@ Definition load_base (p : str) : str :=
 
 (* A deserialized model: external tensors reachable from model.graph (initializers, node attributes,
    subgraphs) and those inside model.functions.  deserialize_tensor gives base_dir "" to all;
-   load() calls set_base_dir(model.graph, base) only. *)
+   load() calls set_base_dir on model.graph and on every function (fix b3a8816; before it only on
+   model.graph, which left function tensors unchecked). *)
 Record mtensors := mkM { m_graph : list tstate; m_funcs : list tstate }.
 Definition with_base (b : str) (t : tstate) : tstate :=
   mkT b (t_loc t) (t_n t) (t_off t) (t_len t) (t_valid t) (t_arr t) (t_raw t).
 Definition load_model (p : str) (m : mtensors) : mtensors :=
-  mkM (map (with_base (load_base p)) (m_graph m)) (m_funcs m).
+  mkM (map (with_base (load_base p)) (m_graph m)) (map (with_base (load_base p)) (m_funcs m)).
